@@ -1,0 +1,296 @@
+//go:build verif
+
+package comet
+
+import (
+	"sync/atomic"
+)
+
+// Instrumentation for the verification harness. Everything in this file exists
+// only in builds with the "verif" tag: event hooks (which may block and thereby
+// act as scheduler gates), fault injection, and read/write accessors that project
+// unexported state for comparison with the specification.
+
+// VerifHandler receives instrumentation events; it may block to act as a scheduler gate.
+type VerifHandler func(point string, args ...any)
+
+var verifHandler atomic.Pointer[VerifHandler]
+
+// VerifSetHandler installs (or, with nil, removes) the instrumentation handler.
+func VerifSetHandler(h VerifHandler) {
+	if h == nil {
+		verifHandler.Store(nil)
+		return
+	}
+	verifHandler.Store(&h)
+}
+
+func verifHook(point string, args ...any) {
+	if h := verifHandler.Load(); h != nil {
+		(*h)(point, args...)
+	}
+}
+
+// VerifFaultFunc, when set, decides whether an injectable fault point fails.
+var verifFaultFunc atomic.Pointer[func(point string) error]
+
+// VerifSetFault installs (or, with nil, removes) the fault injector.
+func VerifSetFault(f func(point string) error) {
+	if f == nil {
+		verifFaultFunc.Store(nil)
+		return
+	}
+	verifFaultFunc.Store(&f)
+}
+
+func verifFault(point string) error {
+	if f := verifFaultFunc.Load(); f != nil {
+		return (*f)(point)
+	}
+	return nil
+}
+
+// VerifLevelFunc, when set, replaces the random level assignment of HNSW inserts.
+var VerifLevelFunc func() (int, bool)
+
+func verifLevel() (int, bool) {
+	if f := VerifLevelFunc; f != nil {
+		return f()
+	}
+	return 0, false
+}
+
+// ---------------------------------------------------------------- HNSW
+
+// VerifHNSWNode is the exported projection of one graph vertex.
+type VerifHNSWNode struct {
+	ID    uint32
+	Level int
+	Edges [][]uint32
+}
+
+// VerifGraph exports the HNSW graph: entry point, top layer, vertices, tombstones.
+func (idx *HNSWIndex) VerifGraph() (uint32, int, []VerifHNSWNode, []uint32) {
+	idx.mu.RLock()
+	defer idx.mu.RUnlock()
+	out := make([]VerifHNSWNode, 0, len(idx.nodes))
+	for id, n := range idx.nodes {
+		e := make([][]uint32, len(n.Edges))
+		for l := range n.Edges {
+			e[l] = append([]uint32{}, n.Edges[l]...)
+		}
+		out = append(out, VerifHNSWNode{ID: id, Level: n.Level, Edges: e})
+	}
+	return idx.entryPoint, idx.maxLevel, out, idx.deletedNodes.ToArray()
+}
+
+// ---------------------------------------------------------------- PQ
+
+// VerifSetCodebooks installs codebooks (one flattened table per sub-space) and marks the index trained.
+func (idx *PQIndex) VerifSetCodebooks(cb [][]float32) {
+	idx.mu.Lock()
+	defer idx.mu.Unlock()
+	idx.codebooks = cb
+	idx.trained = true
+}
+
+// VerifCodebooks returns the codebooks.
+func (idx *PQIndex) VerifCodebooks() [][]float32 {
+	idx.mu.RLock()
+	defer idx.mu.RUnlock()
+	return idx.codebooks
+}
+
+// VerifCodes returns the stored code of every vector, by id.
+func (idx *PQIndex) VerifCodes() map[uint32][]uint8 {
+	idx.mu.RLock()
+	defer idx.mu.RUnlock()
+	out := map[uint32][]uint8{}
+	for i, n := range idx.vectorNodes {
+		out[n.ID()] = append([]uint8{}, idx.codes[i]...)
+	}
+	return out
+}
+
+// VerifKsub returns the number of code words per sub-space.
+func (idx *PQIndex) VerifKsub() int { return idx.Ksub }
+
+// ---------------------------------------------------------------- IVF
+
+// VerifCentroids returns the trained IVF centroids.
+func (idx *IVFIndex) VerifCentroids() [][]float32 {
+	idx.mu.RLock()
+	defer idx.mu.RUnlock()
+	return idx.centroids
+}
+
+// VerifSetCentroids installs centroids and marks the index trained.
+func (idx *IVFIndex) VerifSetCentroids(c [][]float32) {
+	idx.mu.Lock()
+	defer idx.mu.Unlock()
+	idx.centroids = c
+	idx.lists = make([][]VectorNode, len(c))
+	idx.trained = true
+}
+
+// VerifClusterOf returns the inverted list holding each stored id.
+func (idx *IVFIndex) VerifClusterOf() map[uint32]int {
+	idx.mu.RLock()
+	defer idx.mu.RUnlock()
+	out := map[uint32]int{}
+	for li, list := range idx.lists {
+		for _, v := range list {
+			out[v.ID()] = li
+		}
+	}
+	return out
+}
+
+// ---------------------------------------------------------------- IVFPQ
+
+// VerifCentroids returns the trained coarse centroids.
+func (idx *IVFPQIndex) VerifCentroids() [][]float32 {
+	idx.mu.RLock()
+	defer idx.mu.RUnlock()
+	return idx.centroids
+}
+
+// VerifCodebooks returns the residual codebooks.
+func (idx *IVFPQIndex) VerifCodebooks() [][]float32 {
+	idx.mu.RLock()
+	defer idx.mu.RUnlock()
+	return idx.codebooks
+}
+
+// VerifSetQuantizers installs coarse centroids and residual codebooks and marks the index trained.
+func (idx *IVFPQIndex) VerifSetQuantizers(centroids, codebooks [][]float32) {
+	idx.mu.Lock()
+	defer idx.mu.Unlock()
+	idx.centroids = centroids
+	idx.codebooks = codebooks
+	idx.lists = make([][]CompressedVector, len(centroids))
+	idx.trained = true
+}
+
+// VerifEntry is the stored form of one IVFPQ vector.
+type VerifEntry struct {
+	List int
+	Code []uint8
+}
+
+// VerifEntries returns list and code of every stored id.
+func (idx *IVFPQIndex) VerifEntries() map[uint32]VerifEntry {
+	idx.mu.RLock()
+	defer idx.mu.RUnlock()
+	out := map[uint32]VerifEntry{}
+	for li, list := range idx.lists {
+		for _, cv := range list {
+			out[cv.Node.ID()] = VerifEntry{List: li, Code: append([]uint8{}, cv.Code...)}
+		}
+	}
+	return out
+}
+
+// ---------------------------------------------------------------- BM25
+
+// VerifBM25Stats is the projection of the running corpus statistics.
+type VerifBM25Stats struct {
+	NumDocs     int
+	TotalTokens int
+	AvgDocLen   float64
+	DF          map[string]int
+	DocLen      map[uint32]int
+	Deleted     []uint32
+}
+
+// VerifStats exports the running statistics of the BM25 index.
+func (ix *BM25SearchIndex) VerifStats() VerifBM25Stats {
+	ix.mu.RLock()
+	defer ix.mu.RUnlock()
+	st := VerifBM25Stats{
+		NumDocs:     int(ix.numDocs.Load()),
+		TotalTokens: ix.totalTokens,
+		AvgDocLen:   ix.avgDocLen,
+		DF:          map[string]int{},
+		DocLen:      map[uint32]int{},
+		Deleted:     ix.deletedDocs.ToArray(),
+	}
+	for t, b := range ix.postings {
+		st.DF[t] = int(b.GetCardinality())
+	}
+	for d, n := range ix.docLengths {
+		st.DocLen[d] = n
+	}
+	return st
+}
+
+// ---------------------------------------------------------------- metadata
+
+// VerifAllDocs exports the universe bitmap of the metadata index.
+func (idx *RoaringMetadataIndex) VerifAllDocs() []uint32 {
+	idx.mu.RLock()
+	defer idx.mu.RUnlock()
+	return idx.allDocs.ToArray()
+}
+
+// ---------------------------------------------------------------- store
+
+// VerifEvictAll drops every cached segment index.
+func (s *PersistentHybridIndex) VerifEvictAll() { s.segmentManager.EvictAllCaches() }
+
+// VerifRotate forces a memtable rotation.
+func (s *PersistentHybridIndex) VerifRotate() { s.memtableQueue.Rotate() }
+
+// VerifRequestFlush wakes the background flush worker, as maybeScheduleFlush does when the threshold is reached.
+func (s *PersistentHybridIndex) VerifRequestFlush() bool {
+	select {
+	case s.flushChan <- struct{}{}:
+		verifHook("flush.requested")
+		return true
+	default:
+		return false
+	}
+}
+
+// VerifMemtable is the projection of one memtable.
+type VerifMemtable struct {
+	NumDocs int
+	Frozen  bool
+	Size    int64
+}
+
+// VerifMemtables lists the memtable queue, oldest first.
+func (s *PersistentHybridIndex) VerifMemtables() []VerifMemtable {
+	var out []VerifMemtable
+	for _, m := range s.memtableQueue.list() {
+		out = append(out, VerifMemtable{NumDocs: int(m.numDocs.Load()), Frozen: m.frozen.Load(), Size: m.sizeUsed.Load()})
+	}
+	return out
+}
+
+// VerifSegment is the projection of one listed segment.
+type VerifSegment struct {
+	ID     uint64
+	Cached bool
+}
+
+// VerifSegments lists the segment manager in its own order.
+func (s *PersistentHybridIndex) VerifSegments() []VerifSegment {
+	var out []VerifSegment
+	for _, seg := range s.segmentManager.list() {
+		seg.mu.RLock()
+		out = append(out, VerifSegment{ID: seg.id, Cached: seg.cachedIndex != nil})
+		seg.mu.RUnlock()
+	}
+	return out
+}
+
+// VerifSegmentCounter returns the last segment id handed out.
+func (s *PersistentHybridIndex) VerifSegmentCounter() uint64 { return s.provider.segmentCounter.Load() }
+
+// VerifMergeResults exposes mergeResults followed by sortResultsByScore.
+func VerifMergeResults(in []HybridSearchResult) []HybridSearchResult {
+	out := mergeResults(in)
+	sortResultsByScore(out)
+	return out
+}
